@@ -15,7 +15,7 @@ let show_expect e =
 
 let () =
   let verbose = Array.length Sys.argv > 1 && Sys.argv.(1) = "-v" in
-  let total = ref 0 and ok = ref 0 and rej = ref 0 and pan = ref 0 and unk = ref 0 in
+  let total = ref 0 and ok = ref 0 and rej = ref 0 and pan = ref 0 and unk = ref 0 and kf = ref 0 in
   let lineno = ref 0 in
   (try
     while true do
@@ -45,11 +45,14 @@ let () =
               let rv = List.rev rhs in
               let fout = z_of_hex (List.hd rv) in
               let outs = List.rev_map (fun t -> Ops_table.out_token t) (List.tl rv) in
-              if judge e (z_of_hex fin) outs fout then begin
+              let v = Zhex.int_of_z (judge e (z_of_hex fin) outs fout) in
+              if v = 1 then begin
                 incr ok; if verbose then Printf.printf "OK %d %s || expected: %s\n" !lineno line (show_expect e) end
+              else if v >= 2 then begin
+                incr kf; Printf.printf "KNOWN%d %d %s || expected: %s\n" (v - 2) !lineno line (show_expect e) end
               else begin
                 incr rej; Printf.printf "REJECT %d %s || expected: %s\n" !lineno line (show_expect e) end))
       | _ -> ()
     done
   with End_of_file -> ());
-  Printf.printf "SUMMARY total=%d ok=%d reject=%d panic=%d unknown=%d\n" !total !ok !rej !pan !unk
+  Printf.printf "SUMMARY total=%d ok=%d reject=%d panic=%d unknown=%d known=%d\n" !total !ok !rej !pan !unk !kf
